@@ -213,6 +213,10 @@ func (s *surf2) gen(idx int) *Input {
 	in := &Input{Class: class, Op: d.method + " " + routeOf(d.path), data: d,
 		Show: map[string]interface{}{"method": d.method, "path": show(d.path), "query": show(d.rawQuery), "content_type": d.contentType,
 			"body": show(string(d.body))}}
+	if f := genFault(g, 0.12); f != nil {
+		in.Fault = f
+		in.Show.(map[string]interface{})["api_fault"] = f
+	}
 	return in
 }
 
@@ -271,7 +275,9 @@ func httpOutcome(d *httpIn, code int, respBody string) string {
 
 func (s *surf2) call(in *Input) (string, string) {
 	d := in.data.(*httpIn)
+	s.e.fault.arm(in.Fault)
 	rec := s.e.serve(buildRequest(d))
+	s.e.fault.disarm()
 	body := rec.Body.String()
 	out := httpOutcome(d, rec.Code, body)
 	if d.cleanupPools && rec.Code < 300 {
@@ -291,6 +297,8 @@ func (s *surf2) call(in *Input) (string, string) {
 }
 
 func (s *surf2) probe(in *Input, step func(string)) {
+	s.e.fault.disarm()
+	s.e.flushFaultCounters(s.c)
 	step("ipam-cache-rlock(http-GET-/v1/ip)")
 	s.e.serve(buildRequest(&httpIn{method: "GET", path: "/v1/ip", rawQuery: "size=1"}))
 	// probe the locks the request named: the pod lock of the first release entry, the pool lock of the pool
